@@ -378,13 +378,16 @@ def selection_traces(R, tier):
     for pi, vals in enumerate(pops):
         for minimise in (False, True):
             for tsize in ([1, 2, 3] if quick else [1, 2, 3, 5]):
-                for repl in (False, True):
+                for repl, pre in ((False, False), (True, False), (True, True)):
+                    # pre: the individuals already carry a fitness for ANOTHER (conflicting) problem that is still alive
                     for target in range(1, len(vals) + 1):
                         if len(vals) ** (tsize * target) > (3000 if quick else 9000):
                             continue
+                        if pre and (tsize < 2 or len(vals) < 2):
+                            continue
                         leaves = 0
 
-                        def run(src, vals=vals, minimise=minimise, tsize=tsize, repl=repl, target=target):
+                        def run(src, vals=vals, minimise=minimise, tsize=tsize, repl=repl, target=target, pre=pre):
                             rs = NativeRandomSource(1)
                             g = search_grammar()
                             rep = TreeBasedRepresentation(g, MaxDepthDecider(rs, g, 2))
@@ -392,9 +395,13 @@ def selection_traces(R, tier):
                             problem = SingleObjectiveProblem(lambda p: float(p.v), minimize=minimise)
                             ev_ = SequentialEvaluator()
                             events, ids = [], Ids()
+                            other = SingleObjectiveProblem(lambda p: -float(p.v), minimize=minimise)
+                            if pre:
+                                SequentialEvaluator().evaluate(other, inds)
                             ev_.evaluate(problem, inds)
                             popr = [ind_rec(ids, x, problem) for x in inds]
                             log = ChoiceLog(src, events, ids, problem)
+                            log.keepalive = other
                             it = TournamentSelection(tsize, with_replacement=repl).apply(problem, ev_, rep, log, list(inds), target, 1)
                             exc = ""
                             try:
@@ -411,7 +418,7 @@ def selection_traces(R, tier):
                             for script, s, res in explore(run, cap=64, max_leaves=10000):
                                 if isinstance(res, Exception):
                                     res = [{"e": "selend", "exc": exc_name(res)}]
-                                traces.append((f"tour/{pi}/{int(minimise)}/{tsize}/{int(repl)}/{target}/{leaves}", res,
+                                traces.append((f"tour/{pi}/{int(minimise)}/{tsize}/{int(repl)}{int(pre)}/{target}/{leaves}", res,
                                                {"k": "selection"}))
                                 leaves += 1
                         except Exhausted:
